@@ -198,6 +198,20 @@ fn hazards() -> Vec<(String, Vec<u8>)> {
         }
         out.push(("arch:chain of 40 leaves".into(), arch(&ptr(0, 5), &leaf, &[1], &|_| {})));
     }
+    // an absurd entry count together with an absurd declared directory length (either alone is harmless)
+    {
+        let huge = dir(&[vec![1], vec![1], vec![1], vec![1]], m - 1);
+        out.push(("arch:count near 2^64 and root length near 2^64".into(), arch(&huge, &[], &[1], &|h| h.root_len = m - 200)));
+        out.push(("arch:count near 2^64 and root length 2^62".into(), arch(&huge, &[], &[1], &|h| h.root_len = 1 << 62)));
+        let ptr_huge = dir(&[vec![0], vec![0], vec![0xffff_ffff], vec![1]], 1);
+        out.push(("arch:leaf with count near 2^64 behind a pointer of length 2^32-1".into(), arch(&ptr_huge, &huge, &[1], &|_| {})));
+    }
+    // a second leaf whose absolute offset is just above 2^63 (relative positioning must not overflow)
+    {
+        let good = dir(&[vec![7], vec![1], vec![1], vec![1]], 1);
+        let two = dir(&[vec![0, 100], vec![0, 0], vec![good.len() as u64, 9], vec![1, (1u64 << 63) - 100]], 2);
+        out.push(("arch:second leaf offset just above 2^63".into(), arch(&two, &good, &[1], &|_| {})));
+    }
     out.push(("arch:leaf offset near 2^64".into(), arch(&ptr(m - 3, 9), &[], &[1], &|h| h.leaf_off = m - 1)));
     out.push(("arch:leaf_off + offset overflow".into(), arch(&ptr(m - 1, 9), &[], &[1], &|h| h.leaf_off = 200)));
     let one = dir(&[vec![0], vec![1], vec![3], vec![1]], 1);
